@@ -140,3 +140,47 @@ pub fn produced_bytes(out: &[u8], logged: bool) -> ([u32; LOG_CAP], usize) {
         (a, n)
     }
 }
+
+// ---- std search primitives -----------------------------------------------------------------------------
+// `core::slice::memchr::{memchr, memrchr}` use pointer-alignment tricks (`align_offset`, word-at-a-time
+// scanning) that make CBMC branch on nondeterministic alignments. The stand-ins below are the textbook
+// definitions of the same functions (first / last index of a byte), i.e. semantically identical.
+#[cfg(kani)]
+pub fn memchr_stub(x: u8, text: &[u8]) -> Option<usize> {
+    let mut i = 0;
+    while i < text.len() {
+        if text[i] == x {
+            return Some(i);
+        }
+        i += 1;
+    }
+    None
+}
+
+#[cfg(kani)]
+pub fn memrchr_stub(x: u8, text: &[u8]) -> Option<usize> {
+    let mut i = text.len();
+    while i > 0 {
+        i -= 1;
+        if text[i] == x {
+            return Some(i);
+        }
+    }
+    None
+}
+
+/// `core::str::count::count_chars`: std counts scalars word-at-a-time; the definition is "bytes that are not
+/// UTF-8 continuation bytes".
+#[cfg(kani)]
+pub fn count_chars_stub(s: &str) -> usize {
+    let b = s.as_bytes();
+    let mut n = 0;
+    let mut i = 0;
+    while i < b.len() {
+        if (b[i] & 0xC0) != 0x80 {
+            n += 1;
+        }
+        i += 1;
+    }
+    n
+}
